@@ -202,7 +202,10 @@ def main(tier):
     configs = ['default', 'asfeat6', 'asfeat4']  # all three assembler feature levels cost < 6 s together
     total = 0
     for c in configs:
-        n, prog = analyse_config(rep, c, counts)
+        r_ = rep.attempt(analyse_config, rep, c, counts)     # a configuration that cannot be built is reported as broken without hiding what the others show
+        if r_ is None:
+            continue
+        n, prog = r_
         total += n
         rep.analysed['%s.resolver_paths' % c] = n
         rep.analysed['%s.asm_units' % c] = len(prog.units)
